@@ -483,6 +483,20 @@ def _r5_codec(model: Model, run: Run, folder: Folder) -> None:
     tk = norm(kv_h.node)
     run.check("unpack('!H', data[1:3])" in te and 'ld + 3' in te and 'data[3:boundary]' in te and 'len(data) < boundary' in te, ext_h.qualname, 'extended TLV: type(1) len(2) value, bounds checked', ext_h.loc(), "must mirror pack('!BH', ...)")
     run.check('data[1]' in tk and 'ld + 2' in tk and 'data[2:boundary]' in tk and 'len(data) < boundary' in tk, kv_h.qualname, 'standard TLV: type(1) len(1) value, bounds checked', kv_h.loc(), 'must mirror bytes([k, len])')
+    # capability TLVs keep the RFC 5492 layout code(1) len(1) value in BOTH forms: encoder and decoder
+    caps = [n for n in sorted((x for x in walk_no_nested(pk.node) if isinstance(x, ast.Assign)), key=lambda x: x.lineno) if dotted(n.targets[0]) == 'encoded']
+    run.check(len(caps) == 2 and all(norm(n.value) == 'bytes([k, len(capability)]) + capability' for n in caps), pk.qualname, 'capability TLV = [code, len] + value in both forms', pk.loc(), 'RFC 5492 4: capability length is one octet, also inside RFC 9072 extended parameters')
+    inner = None
+    for n in walk_no_nested(un.node):
+        if isinstance(n, ast.If) and 'Parameter.CAPABILITIES' in norm(n.test):
+            for w in walk_no_nested(n):
+                if isinstance(w, ast.While):
+                    inner = w
+    ok_inner = False
+    if inner is not None:
+        calls = [c for c in walk_no_nested(inner) if isinstance(c, ast.Call) and isinstance(c.func, ast.Name) and c.args and isinstance(c.args[0], ast.Constant) and c.args[0].value == 'capability']
+        ok_inner = len(calls) == 1 and calls[0].func.id == '_key_values'
+    run.check(ok_inner, un.qualname, 'capabilities inside a parameter are read with the 1-octet-length decoder (_key_values)', un.loc(inner) if inner is not None else un.loc(), 'the parameter-level decoder (2-octet length in the RFC 9072 form) must not be reused for the capability TLVs, whose length stays one octet')
     # decoder selection
     sel = [n for n in walk_no_nested(un.node) if isinstance(n, ast.Assign) and dotted(n.targets[0]) == 'decoder']
     names = [dotted(n.value) for n in sorted(sel, key=lambda s: s.lineno)]
